@@ -5,6 +5,7 @@ import (
 	"fmt"
 	"os"
 	"path/filepath"
+	"regexp"
 	"sort"
 	"strings"
 	"sync"
@@ -58,6 +59,8 @@ func (l *onlineLedger) snapshot() []wop {
 	defer l.mu.Unlock()
 	return append([]wop(nil), l.ops...)
 }
+
+var missingDataRe = regexp.MustCompile(`(?i)dangling|missing|not found|empty chunk|corrupt|cannot find|unable to (find|load|resolve)|invalid (hash|address)|no such`)
 
 var gcPoints = []string{"gc.afterMark", "gc.beforeFinalize", "gc.afterFinalize", "gc.beforeSwap"}
 
@@ -141,6 +144,13 @@ func c08online(c *rig.Ctx) {
 			rig.Must(script(x, fmt.Sprintf("call dolt_branch('wb%d')", i)))
 		}
 		x.Close()
+	}
+
+	var vmu sync.Mutex
+	viol := func(key, what string, w any) {
+		vmu.Lock()
+		c.Violation(key, what, w)
+		vmu.Unlock()
 	}
 
 	var seq [W]atomic.Int64
@@ -238,6 +248,16 @@ func c08online(c *rig.Ctx) {
 			o.T1 = rig.Mono()
 			if err != nil {
 				o.Err = trunc(err.Error(), 160)
+				// A COMMIT / dolt_commit that the server answers with "the data is not there" while or after a collection
+				// means the session's writes were not retained (the statement's second sentence). Other server errors are
+				// availability and only counted.
+				if strings.HasPrefix(o.Outcome, "failed-commit") && sqlrig.Errno(err) != 1213 {
+					if missingDataRe.MatchString(err.Error()) {
+						viol("c08/online/commit-failed-missing-data/"+o.Kind, fmt.Sprintf("commit of rows written while a collection ran failed because data is missing: %v", err), map[string]any{"op": o})
+					} else {
+						tl.inc("c08.writer_commit_errors_other")
+					}
+				}
 			}
 			led.add(o)
 			if err != nil && (sqlrig.IsConnErr(err) || strings.Contains(err.Error(), "can no longer be used")) {
@@ -248,13 +268,6 @@ func c08online(c *rig.Ctx) {
 				}
 			}
 		}
-	}
-
-	var vmu sync.Mutex
-	viol := func(key, what string, w any) {
-		vmu.Lock()
-		c.Violation(key, what, w)
-		vmu.Unlock()
 	}
 
 	// verify reads the tables and checks every op that completed before `before` (monotonic clock).
